@@ -505,6 +505,10 @@ class Extractor:
         return '?'
 
     def _sink_of_var(self, name: str, fn: ast.AST, depth: int = 0) -> str:
+        # inside an inlined helper a parameter is the caller's buffer (`_write_block(phys_buf, ...)`)
+        ps_ = getattr(self, '_param_sinks', None)
+        if ps_ and name in ps_[-1] and depth == 0:
+            return ps_[-1][name]
         # a local that only holds packed bytes on their way into a buffer (`packed = fmt.pack(...); buf.write(packed)`) goes where the buffer goes
         if depth < 3:
             for n in walk_no_nested(fn):
@@ -612,9 +616,23 @@ class Extractor:
         name = f.attr if isinstance(f, ast.Attribute) and dotted(f.value) in ('self', 'cls') else (f.id if isinstance(f, ast.Name) else None)
         if name and name in self.inline and self.depth < 3:
             self.depth += 1
+            hfn = self.inline[name]
+            hparams = [a.arg for a in hfn.args.args]
+            if hparams and hparams[0] in ('self', 'cls') and isinstance(f, ast.Attribute):
+                hparams = hparams[1:]
+            sinks: Dict[str, str] = {}
+            for i_, a_ in enumerate(c.args[:len(hparams)]):
+                if isinstance(a_, ast.Name):
+                    t_ = self._sink_of_var(a_.id, fn)
+                    if not t_.startswith('var:'):
+                        sinks[hparams[i_]] = t_
+            if not hasattr(self, '_param_sinks'):
+                self._param_sinks = []       # type: ignore[attr-defined]
+            self._param_sinks.append(sinks)       # type: ignore[attr-defined]
             try:
-                return self.extract(self.inline[name])
+                return self.extract(hfn)
             finally:
+                self._param_sinks.pop()       # type: ignore[attr-defined]
                 self.depth -= 1
         return None
 
